@@ -80,9 +80,12 @@ Qed.
                       context descriptors have no single state (a property of the MDIB, preserved by every transaction:
                       C02_history_all needs it for the initial MDIB only);
      descr_only acts  only add_descriptor / get_descriptor / remove_descriptor / get_state calls (and their entity twins).
+     tree_ok m        every non-root descriptor has an existing parent (needed for the (re-)creation clause only; a property
+                      of the MDIB as well, preserved by every transaction: C02_descr_tx_tree, C02_history_all).
    No condition relates the calls of one transaction to each other: a transaction that creates or updates a descriptor
-   inside a subtree it removes is refused (C02_descr_conflict_rejected), every other combination - several children of one
-   parent, parent and child, nested removals, any order - is covered by the theorems. *)
+   inside a subtree it removes, or creates one below a parent that neither exists nor is created with it, is refused
+   (C02_descr_conflict_rejected, C02_descr_orphan_rejected); every other combination - several children of one parent,
+   parent and child, nested removals, any order - is covered by the theorems. *)
 
 (* a transaction that creates / updates a descriptor (or adds a child) inside a subtree it removes: ApiUsageError,
    the MDIB is exactly what it was *)
@@ -90,6 +93,13 @@ Theorem C02_descr_conflict_rejected : forall m acts t,
   body 6 m empty_tx acts = Ok t -> subtree_conflict m t = true -> transaction 6 None acts m = (m, 3).
 Proof. exact conflict_rejected. Qed.
 Print Assumptions C02_descr_conflict_rejected.
+
+(* a transaction that creates a descriptor whose parent neither exists nor is created by the same transaction: ApiUsageError,
+   the MDIB is exactly what it was *)
+Theorem C02_descr_orphan_rejected : forall m acts t,
+  body 6 m empty_tx acts = Ok t -> orphan_create m t = true -> transaction 6 None acts m = (m, 3).
+Proof. exact orphan_rejected. Qed.
+Print Assumptions C02_descr_orphan_rejected.
 
 (* 1. a descriptor that exists before and after a committed descriptor transaction has its version unchanged or + 1;
    + 1 exactly when it is updated by a call or is the parent of an added / removed descriptor - once, however many
@@ -156,37 +166,34 @@ Proof. exact subtree_exact. Qed.
 Print Assumptions C02_subtree_exact.
 
 (* 3b. (re-)creation: the added descriptor starts at 0 or continues from the remembered version + 1
-   ([set_version sv h 0] = saved + 1 if a version is remembered for h, else 0); it is one higher only when the same
-   transaction also removes a descriptor that named this (so far missing) handle as its parent - an orphan; the state of
-   the added descriptor carries the descriptor's version and continues its own counter *)
-Theorem C02_descr_tx_created : forall m acts, mdib_wf m -> descr_only acts ->
+   ([set_version sv h 0] = saved + 1 if a version is remembered for h, else 0); its state carries that DescriptorVersion
+   and continues its own counter the same way *)
+Theorem C02_descr_tx_created : forall m acts, mdib_wf m -> descr_only acts -> tree_ok m ->
   snd (transaction 6 None acts m) = 0 ->
   forall h par k p sp, In (ADAdd h par k p sp) acts ->
     descrs m h = None /\
-    exists d', descrs (fst (transaction 6 None acts m)) h = Some d' /\ d_parent d' = par /\ d_kind d' = k /\ d_pay d' = p /\
-      (d_ver d' = set_version (sv_d m) h 0 \/
-       (d_ver d' = set_version (sv_d m) h 0 + 1 /\
-        exists c dc, In (ADDel c) acts /\ descrs m c = Some dc /\ d_parent dc = Some h)) /\
-      (k <> K_CTX -> exists s, states (fst (transaction 6 None acts m)) h = Some s /\ s_dver s = d_ver d' /\
-                               s_ver s = set_version (sv_s m) h 0).
+    descrs (fst (transaction 6 None acts m)) h = Some (mkDescr par k (set_version (sv_d m) h 0) p) /\
+    (k <> K_CTX -> exists s, states (fst (transaction 6 None acts m)) h = Some s /\
+                             s_dver s = set_version (sv_d m) h 0 /\ s_ver s = set_version (sv_s m) h 0).
 Proof. exact descr_tx_created. Qed.
 Print Assumptions C02_descr_tx_created.
 
-Theorem C02_descr_tx_created_exact : forall m acts, mdib_wf m -> descr_only acts ->
-  snd (transaction 6 None acts m) = 0 ->
-  forall h par k p sp, In (ADAdd h par k p sp) acts ->
-    (forall c dc, In (ADDel c) acts -> descrs m c = Some dc -> d_parent dc <> Some h) ->
-    descrs (fst (transaction 6 None acts m)) h = Some (mkDescr par k (set_version (sv_d m) h 0) p).
-Proof. exact descr_tx_created_exact. Qed.
-Print Assumptions C02_descr_tx_created_exact.
+(* every non-root descriptor has an existing parent - also after removals of whole subtrees (all descendants go along) and
+   after additions (the parent exists or is added in the same transaction, otherwise the transaction is refused) *)
+Theorem C02_descr_tx_tree : forall m acts, mdib_wf m -> descr_only acts ->
+  tree_ok m -> tree_ok (fst (transaction 6 None acts m)).
+Proof. exact descr_tx_tree. Qed.
+Print Assumptions C02_descr_tx_tree.
 
 (* 4. histories of transactions of ALL kinds (state, context, descriptor with ANY descriptor calls; aborted ones arbitrary;
    [hist_ok] only says that the calls fit the kind of transaction and that uuid4 handles are fresh): well-formedness and
-   state <-> descriptor consistency are preserved, the version of every descriptor handle - present or remembered, so also
-   across delete and re-create - never decreases *)
+   state <-> descriptor consistency and "every non-root descriptor has an existing parent" are preserved (needed for the
+   initial MDIB only), the version of every descriptor handle - present or remembered, so also across delete and
+   re-create - never decreases *)
 Theorem C02_history_all : forall hist m, mdib_wf m -> hist_ok m hist ->
   mdib_wf (exec m hist) /\
   (states_consistent m -> states_consistent (exec m hist)) /\
+  (tree_ok m -> tree_ok (exec m hist)) /\
   (forall h, ev_d m h <= ev_d (exec m hist) h) /\
   (forall h d d', descrs m h = Some d -> descrs (exec m hist) h = Some d' -> d_ver d <= d_ver d').
 Proof. exact all_history. Qed.
@@ -200,6 +207,14 @@ Example C02_descr_update_below_removed_rejected : rejected [ADUpd 3 33; ADDel 2]
 Proof. exact update_below_removed_rejected. Qed.
 Example C02_descr_update_after_remove_rejected : rejected [ADDel 2; ADUpd 3 33].
 Proof. exact update_after_remove_rejected. Qed.
+(* the first transaction of the orphan history (add a descriptor below the missing handle 9) is refused; parent and child
+   in one transaction commit in either order *)
+Example C02_descr_orphan_add_rejected : rejected [ADAdd 4 (Some 9) K_METRIC 40 41].
+Proof. exact orphan_add_rejected. Qed.
+Example C02_descr_parent_and_child_commit :
+  snd (transaction 6 None [ADAdd 4 (Some 9) K_METRIC 40 41; ADAdd 9 (Some 1) K_COMP 90 91] w_m) = 0 /\
+  snd (transaction 6 None [ADAdd 9 (Some 1) K_COMP 90 91; ADAdd 4 (Some 9) K_METRIC 40 41] w_m) = 0.
+Proof. exact parent_and_child_commit. Qed.
 Example C02_descr_nested_remove_commits :
   let r := transaction 6 None [ADDel 3; ADDel 1] w_m in
   snd r = 0 /\ ver (fst r) = 1 /\ states_consistent (fst r) /\ mdib_wf (fst r) /\
@@ -210,7 +225,7 @@ Proof. exact nested_remove_commits. Qed.
 (* the hypotheses of the descriptor theorems are satisfiable: parent 2 with children 3 and 4, one transaction adds 5
    below 2 (5 has remembered versions 6 / 2), removes 3 and updates 4 *)
 Example C02_descr_nonvacuous :
-  mdib_wf ex_m /\ states_consistent ex_m /\ descr_only ex_acts /\
+  tree_ok ex_m /\ mdib_wf ex_m /\ states_consistent ex_m /\ descr_only ex_acts /\
   let r := transaction 6 None ex_acts ex_m in
   snd r = 0 /\ ver (fst r) = 11 /\
   map (descrs (fst r)) [1; 2; 3; 4; 5] =
@@ -219,4 +234,4 @@ Example C02_descr_nonvacuous :
   map (states (fst r)) [1; 2; 3; 4; 5] =
     [Some (mkState 0 2 11); Some (mkState 4 8 21); None; Some (mkState 6 1 41); Some (mkState 7 3 51)] /\
   sv_d (fst r) 3 = Some 1 /\ sv_s (fst r) 3 = Some 4.
-Proof. exact descr_tx_nonvacuous. Qed.
+Proof. exact (conj ex_tree descr_tx_nonvacuous). Qed.
